@@ -436,6 +436,18 @@ func TestVerifC21Handshake(t *testing.T) {
 		if !o.HasVersion(VersionTLS13) || o.PSK {
 			return
 		}
+		// the documented build - edit - handshake sequence: the list advertised is the one in the hello actually sent
+		var prevAlgs []CertCompressionAlgo
+		if rapid.Bool().Draw(rt, "edit_algorithms_after_build") {
+			prevAlgs = algs
+			algs = vf21GenAlgs(rt)
+			for _, e := range prep.UC.Extensions {
+				if ce, ok := e.(*UtlsCompressCertExtension); ok {
+					ce.Algorithms = algs
+				}
+			}
+			st.Class("hs-algorithms-edited-after-build")
+		}
 		alg := uint16(algs[rapid.IntRange(0, len(algs)-1).Draw(rt, "alg")])
 		params := vf21GenParams(rt, alg)
 		fault := []string{"none", "none", "none", "declared-longer", "declared-shorter", "unadvertised", "truncate"}[rapid.IntRange(0, 6).Draw(rt, "fault")]
@@ -471,6 +483,12 @@ func TestVerifC21Handshake(t *testing.T) {
 					msgAlg = a
 				}
 			}
+			for _, a := range prevAlgs { // preferably one that an earlier build of the hello did list
+				if !adv[uint16(a)] {
+					msgAlg = uint16(a)
+					st.Class("hs-unadvertised-but-listed-before-the-edit")
+				}
+			}
 			if msgAlg == 0 {
 				fault = "none"
 				msgAlg = alg
@@ -502,7 +520,7 @@ func TestVerifC21Handshake(t *testing.T) {
 		vsrvInstall(srv, s)
 		pair := &vfPair{CP: prep.CP, SP: prep.SP, Cli: prep.UC, Srv: srv}
 		cerr, serr := pair.Handshake()
-		desc := fmt.Sprintf("%s advertising %v | chain of %d certs, message %d bytes | %s | fault=%s", src, algs, len(cert.Certificate), len(original), enc.Settings, fault)
+		desc := fmt.Sprintf("%s advertising %v (before an edit: %v) | chain of %d certs, message %d bytes | %s | fault=%s", src, algs, prevAlgs, len(cert.Certificate), len(original), enc.Settings, fault)
 		st.Class("hs-fault=" + fault)
 		st.Class("hs-alg=" + map[uint16]string{1: "zlib", 2: "brotli", 3: "zstd"}[msgAlg])
 		if cerr == errVfHang || serr == errVfHang {
